@@ -10,6 +10,7 @@ R26.2 error discipline of the reader: the semantic actions of the grammar reader
       to_grammar_config.rs return Result; `?`/bail! are the reporting idiom - these two modules must stay within their
       frozen site counts *and* every site there is reviewed (no baseline-unreviewed entries allowed).
 R26.5 the per-k analysis caches have a slot for every admissible k (const relation, = C06 R06.4).
+R26.6 decidable validates its lookahead limit against MAX_K before the first cache access (= C06 R06.5).
 R26.4 unsigned-subtraction inventory on the same reachable set: each overflow-checked `a - b` is discharged by a dominating
       guard a >= b (subguard.py) or reviewed in SUB_TABLE.
 Other implicit panics (indexing, additions, RefCell borrows, stack overflow) depend on value ranges: NOT decided.
@@ -126,6 +127,7 @@ def check(ctx):
     # R26.5 = C06 R06.4: the per-k caches have MAX_K + 1 slots (an index panic otherwise; added after seed C26-b)
     from . import c06
     c06.cache_capacity(ctx, ctx.facts(), rule="R26.5")
+    c06.limit_validated(ctx, ctx.facts(), rule="R26.6")
 
     # R26.3: reviewed-safe entries that rest on another property's rule are re-evaluated here
     # (the unwrap in Cfg::get_terminal_index_function cannot fire only while the lookup key equals the de-duplication key)
